@@ -68,17 +68,23 @@ pub uninterp spec fn roas_issued_under(u: RoaUpdates) -> Option<CertifiedKey>;
 pub uninterp spec fn aspas_issued_under(u: AspaObjectsUpdates) -> Option<CertifiedKey>;
 pub uninterp spec fn bgpsec_issued_under(u: BgpSecCertificateUpdates) -> Option<CertifiedKey>;
 pub uninterp spec fn certs_issued_under(u: ChildCertificateUpdates) -> Option<ReceivedCert>;
+/// what the object collections answer to a renewal request (their own contracts: units c14_renewal, c14_aspa_renewal, c01_bgpsec)
+pub uninterp spec fn roa_renewal_of(x: Roas, f: bool, k: CertifiedKey, t: IssuanceTimingConfig) -> KrillResult<RoaUpdates>;
+pub uninterp spec fn aspa_renewal_of(x: AspaObjects, k: CertifiedKey, o: Option<Time>, t: IssuanceTimingConfig) -> KrillResult<AspaObjectsUpdates>;
+pub uninterp spec fn bgpsec_renewal_of(x: BgpSecCertificates, k: CertifiedKey, o: Option<Time>, t: IssuanceTimingConfig) -> KrillResult<BgpSecCertificateUpdates>;
+pub uninterp spec fn aspa_threshold(t: IssuanceTimingConfig) -> Time;
+pub uninterp spec fn bgpsec_threshold(t: IssuanceTimingConfig) -> Time;
 pub assume_specification [Roas::create_renewal] (x: &Roas, f: bool, k: &CertifiedKey, t: &IssuanceTimingConfig, s: &KrillSigner) -> (r: KrillResult<RoaUpdates>)
-    ensures r is Ok ==> roas_issued_under(r->Ok_0) == Some(*k);
+    ensures r is Ok ==> roas_issued_under(r->Ok_0) == Some(*k), r == roa_renewal_of(*x, f, *k, *t);
 pub assume_specification [<RoaUpdates as Default>::default] () -> (r: RoaUpdates) ensures roas_issued_under(r) is None;
 pub assume_specification [<AspaObjectsUpdates as Default>::default] () -> (r: AspaObjectsUpdates) ensures aspas_issued_under(r) is None;
 pub assume_specification [<BgpSecCertificateUpdates as Default>::default] () -> (r: BgpSecCertificateUpdates) ensures bgpsec_issued_under(r) is None;
-pub assume_specification [IssuanceTimingConfig::new_aspa_issuance_threshold] (t: &IssuanceTimingConfig) -> (r: Time);
-pub assume_specification [IssuanceTimingConfig::new_bgpsec_issuance_threshold] (t: &IssuanceTimingConfig) -> (r: Time);
+pub assume_specification [IssuanceTimingConfig::new_aspa_issuance_threshold] (t: &IssuanceTimingConfig) -> (r: Time) ensures r == aspa_threshold(*t);
+pub assume_specification [IssuanceTimingConfig::new_bgpsec_issuance_threshold] (t: &IssuanceTimingConfig) -> (r: Time) ensures r == bgpsec_threshold(*t);
 pub assume_specification [AspaObjects::create_renewal] (x: &AspaObjects, k: &CertifiedKey, o: Option<Time>, t: &IssuanceTimingConfig, s: &KrillSigner) -> (r: KrillResult<AspaObjectsUpdates>)
-    ensures r is Ok ==> aspas_issued_under(r->Ok_0) == Some(*k);
+    ensures r is Ok ==> aspas_issued_under(r->Ok_0) == Some(*k), r == aspa_renewal_of(*x, *k, o, *t);
 pub assume_specification [BgpSecCertificates::create_renewal] (x: &BgpSecCertificates, k: &CertifiedKey, o: Option<Time>, t: &IssuanceTimingConfig, s: &KrillSigner) -> (r: KrillResult<BgpSecCertificateUpdates>)
-    ensures r is Ok ==> bgpsec_issued_under(r->Ok_0) == Some(*k);
+    ensures r is Ok ==> bgpsec_issued_under(r->Ok_0) == Some(*k), r == bgpsec_renewal_of(*x, *k, o, *t);
 pub assume_specification [ChildCertificates::activate_key] (x: &ChildCertificates, c: &ReceivedCert, t: &IssuanceTimingConfig, s: &KrillSigner) -> (r: KrillResult<ChildCertificateUpdates>)
     ensures r is Ok ==> certs_issued_under(r->Ok_0) == Some(*c);
 pub assume_specification [RoaUpdates::is_empty] (x: &RoaUpdates) -> (r: bool);
@@ -207,13 +213,13 @@ pub open spec fn key_neutral(ev: CertAuthEvent) -> bool {
                 KeyState::Pending(_) => r is Err, KeyState::Active(c) => r is Ok && *r->Ok_0 == c, KeyState::RollPending(_, c) => r is Ok && *r->Ok_0 == c,
                 KeyState::RollNew(_, c) => r is Ok && *r->Ok_0 == c, KeyState::RollOld(c, _) => r is Ok && *r->Ok_0 == c }''')]),
         # the periodic renewals sign with the CURRENT key
-        U.fn(RC, 'ResourceClass', 'create_roa_renewal', ensures=[('under_current_key', '''r is Ok && roas_issued_under(r->Ok_0) is Some ==>
+        U.fn(RC, 'ResourceClass', 'create_roa_renewal', ensures=[('renewal_runs_in_every_phase_that_has_a_current_key', '!(phase(self.key_state) is Pending) ==> r == roa_renewal_of(self.roas, force, (match self.key_state { KeyState::Active(c) => c, KeyState::RollPending(_, c) => c, KeyState::RollNew(_, c) => c, KeyState::RollOld(c, _) => c, KeyState::Pending(_) => arbitrary() }), *issuance_timing)'), ('under_current_key', '''r is Ok && roas_issued_under(r->Ok_0) is Some ==>
                 !(phase(self.key_state) is Pending) && roas_issued_under(r->Ok_0)->Some_0 == (match self.key_state { KeyState::Active(c) => c, KeyState::RollPending(_, c) => c,
                     KeyState::RollNew(_, c) => c, KeyState::RollOld(c, _) => c, KeyState::Pending(_) => arbitrary() })''')]),
-        U.fn(RC, 'ResourceClass', 'create_aspa_renewal', ensures=[('under_current_key', '''r is Ok && aspas_issued_under(r->Ok_0) is Some ==>
+        U.fn(RC, 'ResourceClass', 'create_aspa_renewal', ensures=[('renewal_runs_in_every_phase_that_has_a_current_key', '!(phase(self.key_state) is Pending) ==> r == aspa_renewal_of(self.aspas, (match self.key_state { KeyState::Active(c) => c, KeyState::RollPending(_, c) => c, KeyState::RollNew(_, c) => c, KeyState::RollOld(c, _) => c, KeyState::Pending(_) => arbitrary() }), Some(aspa_threshold(*issuance_timing)), *issuance_timing)'), ('under_current_key', '''r is Ok && aspas_issued_under(r->Ok_0) is Some ==>
                 !(phase(self.key_state) is Pending) && aspas_issued_under(r->Ok_0)->Some_0 == (match self.key_state { KeyState::Active(c) => c, KeyState::RollPending(_, c) => c,
                     KeyState::RollNew(_, c) => c, KeyState::RollOld(c, _) => c, KeyState::Pending(_) => arbitrary() })''')]),
-        U.fn(RC, 'ResourceClass', 'create_bgpsec_renewal', ensures=[('under_current_key', '''r is Ok && bgpsec_issued_under(r->Ok_0) is Some ==>
+        U.fn(RC, 'ResourceClass', 'create_bgpsec_renewal', ensures=[('renewal_runs_in_every_phase_that_has_a_current_key', '!(phase(self.key_state) is Pending) ==> r == bgpsec_renewal_of(self.bgpsec_certificates, (match self.key_state { KeyState::Active(c) => c, KeyState::RollPending(_, c) => c, KeyState::RollNew(_, c) => c, KeyState::RollOld(c, _) => c, KeyState::Pending(_) => arbitrary() }), Some(bgpsec_threshold(*issuance_timing)), *issuance_timing)'), ('under_current_key', '''r is Ok && bgpsec_issued_under(r->Ok_0) is Some ==>
                 !(phase(self.key_state) is Pending) && bgpsec_issued_under(r->Ok_0)->Some_0 == (match self.key_state { KeyState::Active(c) => c, KeyState::RollPending(_, c) => c,
                     KeyState::RollNew(_, c) => c, KeyState::RollOld(c, _) => c, KeyState::Pending(_) => arbitrary() })''')]),
         # activation: all objects move to the NEW key in the same event set as KeyRollActivated
